@@ -254,21 +254,33 @@ func longTouch(w *tr.W, rng *rand.Rand, sized bool, total int) {
 }
 
 // longFill: unit-size entries inserted until Length and Size have passed `total` (a cache that never
-// evicts), read at every mark; then the capacity drops so that all but a few go in one call, and the
-// cache is used on.
+// evicts), the counters read at every mark, the lists at the end; then the cache is used on: entries
+// from both ends are read and deleted, the capacity drops below the size (by a few entries for a large
+// cache - the trace specification evicts recursively - and to 3 for a small one).
 func longFill(w *tr.W, rng *rand.Rand, sized bool, total int) {
 	capa := total + 5
 	l := newLRU(sized, capa, 0)
 	w.Emit(tr.E{"ev": "reset", "cap": capa, "sized": sized, "threads": 1, "src": "long-fill", "keykind": 0})
 	done := 0
 	for _, m := range marks(total) {
-		doRun(w, l, runT{a: act{Op: "set", K: 1 + done, V: 1 + done, S: 1}, n: m - done, dk: 1, dv: 1})
+		doRun(w, l, runT{a: act{Op: []string{"set", "setnx"}[rng.Intn(2)], K: 1 + done, V: 1 + done, S: 1}, n: m - done, dk: 1, dv: 1})
 		done = m
 		getters(w, l)
 	}
 	w.Emit(fin(tr.E{"ev": "final", "obs": l.obs()}))
-	for _, a := range []act{{Op: "setcap", C: 3}, {Op: "qstats"}, {Op: "setx", K: 1, V: 7, S: 1}, {Op: "get", K: total}, {Op: "qev"}} {
+	shrink := 3
+	if total > 1000 {
+		shrink = total - 4
+	}
+	for _, a := range []act{{Op: "get", K: 1}, {Op: "del", K: total}, {Op: "setnx", K: 2, V: 7, S: 1}, {Op: "peek", K: total / 2},
+		{Op: "qstats"}, {Op: "setcap", C: shrink}, {Op: "qstats"}, {Op: "setx", K: 3, V: 7, S: 1}, {Op: "get", K: total - 1}, {Op: "qev"}, {Op: "qlen"}} {
 		w.Emit(fin(pev(tr.E{"ev": "callr", "a": a.rec(), "r": safeDo(l, a)})))
 	}
+	if total <= 1000 {
+		w.Emit(fin(tr.E{"ev": "final", "obs": l.obs()}))
+	}
+	a := act{Op: "clear"}
+	w.Emit(fin(pev(tr.E{"ev": "callr", "a": a.rec(), "r": safeDo(l, a)})))
+	getters(w, l)
 	w.Emit(fin(tr.E{"ev": "final", "obs": l.obs()}))
 }
